@@ -22,6 +22,7 @@ func init() {
 		"time.Unix":                              libTimeFromUnix,
 		"(time.Time).In":                         libTimeIn,
 		"os.IsNotExist":                          libIsNotExist,
+		"errors.Is":                              libErrorsIs,
 		"os.Stat":                                libStat,
 		"os.Lstat":                               libStat,
 		"encoding/binary.Write":                  libReadOnly,
@@ -312,6 +313,17 @@ func libTimeIn(g *FuncGen, c *ast.CallExpr, callee *types.Func, st *State) []Val
 	src := g.exprText(c)
 	g.oblige(st, "nil", src, nil, fmt.Sprintf("(not (= %s 0))", loc.T), c.Pos(), src)
 	return []Val{{fmt.Sprintf("(mk_time (time_unix %s) (loc_off %s))", t.T, loc.T), t.Ty, "Time"}}
+}
+
+// errors.Is(err, syscall.ENOTDIR): a component of the path is not a directory (then the path itself does not exist)
+func libErrorsIs(g *FuncGen, c *ast.CallExpr, callee *types.Func, st *State) []Val {
+	e := g.ev(c.Args[0], st)
+	if g.exprText(c.Args[1]) == "syscall.ENOTDIR" {
+		return []Val{{fmt.Sprintf("(isNotDirErr %s)", e.T), types.Typ[types.Bool], "Bool"}}
+	}
+	g.ev(c.Args[1], st)
+	g.libNote("errors.Is with a target other than syscall.ENOTDIR: result unconstrained")
+	return []Val{g.freshVal(st, "errorsIs", types.Typ[types.Bool])}
 }
 
 func libIsNotExist(g *FuncGen, c *ast.CallExpr, callee *types.Func, st *State) []Val {
